@@ -154,6 +154,13 @@ fn is_cache_within_ttl(cache_path: &Path) -> bool {
         return false;
     };
 
+    #[cfg(feature = "verif-hooks")]
+    if let Some(now) = crate::verif_hooks::now_override() {
+        let m = modified
+            .duration_since(SystemTime::UNIX_EPOCH)
+            .map_or(0, |d| d.as_secs());
+        return now >= m && now - m < CACHE_TTL_SECS;
+    }
     let Ok(elapsed) = SystemTime::now().duration_since(modified) else {
         return false;
     };
@@ -201,9 +208,15 @@ fn write_to_cache(url: &str, content: &str, project_root: Option<&Path>) -> Opti
         fs::create_dir_all(parent).ok()?;
     }
 
+    #[cfg(feature = "verif-hooks")]
+    crate::verif_hooks::point("rc:before_create");
     // Write content to cache file
     let mut file = fs::File::create(&cache_path).ok()?;
+    #[cfg(feature = "verif-hooks")]
+    crate::verif_hooks::point("rc:after_create");
     file.write_all(content.as_bytes()).ok()?;
+    #[cfg(feature = "verif-hooks")]
+    crate::verif_hooks::point("rc:after_write");
 
     Some(())
 }
